@@ -51,15 +51,23 @@ def observe_env(fn, start, cells):
 
 
 _WRITES = {}
+_FIRST = {}
 
 
 def write_file(path, text):
+    """Rewrites of one path within the process alternate between a clearly later modification time and EXACTLY the
+    modification time of the first version (cp -p, rsync -t, a coarse file-system clock): what a report shows must
+    follow the content of the file, whatever its time stamp says."""
     with open(path, 'w', encoding='utf-8', newline='') as f:
         f.write(text)
     n = _WRITES.get(path, 0)
     _WRITES[path] = n + 1
-    if n:
-        st = os.stat(path)
+    st = os.stat(path)
+    if not n:
+        _FIRST[path] = st.st_mtime_ns
+    elif n % 2:
+        os.utime(path, ns=(st.st_atime_ns, _FIRST[path]))
+    else:
         os.utime(path, ns=(st.st_atime_ns, st.st_mtime_ns + n * 5_000_000_000))
 
 
